@@ -3,7 +3,7 @@ import PhysisModel.Base.Reader
 Model of `src/sqpack/data.rs` (`SqPackData::read_from_offset`, `read_standard_file`,
 `read_model_file`, `read_texture_file`), `read_data_block` in `src/sqpack/mod.rs`,
 `no_header_decompress` (`src/compression.rs`, through the parameter `inflate`) and the write of
-`ModelFileHeader` (`src/model.rs`).
+`ModelFileHeader` (`src/model.rs`).  The model mirrors the code **with fix C02-01 applied**.
 
 `whole` is the content of the dat file; a file position is a `Nat` (`u64` in the code; an
 addition that leaves `u64` is a debug-build panic).  Results are `Option (Option Bytes)`:
@@ -314,18 +314,28 @@ def readModelFile (inflate : Inflate) (whole : Bytes) (offset : Nat) (size : UIn
       match processModelData inflate whole base none m.num.vertexBufferSize.a0 m.offset.vertexBufferSize.a0 st with
       | none => none
       | some (vo0, vs0, st) =>
+      -- fix C02-01: the edge-geometry runs are read as well (their offsets / sizes are not stored)
+      match processModelData inflate whole base none m.num.edgeGeometryVertexBufferSize.a0 m.offset.edgeGeometryVertexBufferSize.a0 st with
+      | none => none
+      | some (eo0, _, st) =>
       match processModelData inflate whole base none m.num.indexBufferSize.a0 m.offset.indexBufferSize.a0 st with
       | none => none
       | some (io0, is0, st) =>
       match processModelData inflate whole base (some vo0) m.num.vertexBufferSize.a1 m.offset.vertexBufferSize.a1 st with
       | none => none
       | some (vo1, vs1, st) =>
+      match processModelData inflate whole base (some eo0) m.num.edgeGeometryVertexBufferSize.a1 m.offset.edgeGeometryVertexBufferSize.a1 st with
+      | none => none
+      | some (eo1, _, st) =>
       match processModelData inflate whole base (some io0) m.num.indexBufferSize.a1 m.offset.indexBufferSize.a1 st with
       | none => none
       | some (io1, is1, st) =>
       match processModelData inflate whole base (some vo1) m.num.vertexBufferSize.a2 m.offset.vertexBufferSize.a2 st with
       | none => none
       | some (vo2, vs2, st) =>
+      match processModelData inflate whole base (some eo1) m.num.edgeGeometryVertexBufferSize.a2 m.offset.edgeGeometryVertexBufferSize.a2 st with
+      | none => none
+      | some (_, _, st) =>
       match processModelData inflate whole base (some io1) m.num.indexBufferSize.a2 m.offset.indexBufferSize.a2 st with
       | none => none
       | some (io2, is2, st) =>
